@@ -291,7 +291,8 @@ Lemma lin_fn_peak i d : omin <= omax -> valid sh i -> (d < rank)%nat -> nz (nth 
   else f (upd i d (S (nth d i 0%nat))) <= f i.
 Proof. intros Hb Hv Hd Hm Hu Hu1 Hs. pose proof (lin_fn_upd i d _ Hv Hd Hs) as HU. unfold lprof, prof_at in HU.
   rewrite Hm, Hu in HU. apply Z.eqb_neq in Hu1.
-  rewrite !uni_prof_peak_eq in HU by (auto; lia).
+  pose proof (uni_prof_peak_eq (nth d unis 0%Z) (nth d sizes 0%nat) r (S (nth d i 0%nat)) ltac:(lia) Hu1) as E1.
+  pose proof (uni_prof_peak_eq (nth d unis 0%Z) (nth d sizes 0%nat) r (nth d i 0%nat) ltac:(lia) Hu1) as E2.
   pose proof (valley_shape (nth d sizes 0%nat) r (nth d i 0%nat) (lin_dim_range_nonneg Hb) Hs) as H.
   destruct (nth d i 0 <? nth d sizes 0 / 2)%nat; lra. Qed.
 
@@ -360,12 +361,12 @@ Definition corner (pick : Z -> Z -> nat -> nat) : idx :=
   map (fun d => pick (nth d em 0%Z) (nth d unis 0%Z) (nth d sizes 0%nat)) (seq 0 rank) ++ [0%nat].
 Lemma corner_nth pick d : (d < rank)%nat -> nth d (corner pick) 0%nat = pick (nth d em 0%Z) (nth d unis 0%Z) (nth d sizes 0%nat).
 Proof. intros Hd. unfold corner. rewrite app_nth1 by (rewrite map_length, seq_length; exact Hd).
-  apply nth_map_seq. exact Hd. Qed.
+  exact (nth_map_seq (fun d => pick (nth d em 0%Z) (nth d unis 0%Z) (nth d sizes 0%nat)) rank d 0%nat Hd). Qed.
 Lemma corner_valid pick : (forall m u s, (2 <= s)%nat -> (pick m u s < s)%nat) -> valid sh (corner pick).
 Proof. intros Hp. apply valid_iff. unfold sh, corner. rewrite !app_length, map_length, seq_length. cbn [length]. split. reflexivity.
   fold rank. intros e He. destruct (Nat.ltb_spec e rank) as [Hlt|Hge].
   - rewrite !app_nth1 by (rewrite ?map_length, ?seq_length; exact Hlt).
-    rewrite nth_map_seq by exact Hlt. apply Hp. apply size_ge2. exact Hlt.
+    rewrite (nth_map_seq (fun d => pick (nth d em 0%Z) (nth d unis 0%Z) (nth d sizes 0%nat)) rank e 0%nat Hlt). apply Hp. apply size_ge2. exact Hlt.
   - assert (e = rank) by lia. subst e. rewrite !app_nth2 by (rewrite ?map_length, ?seq_length; unfold rank; lia).
     rewrite map_length, seq_length. unfold rank. rewrite Nat.sub_diag. cbn. lia. Qed.
 
@@ -383,3 +384,382 @@ Proof. exists (corner arg_hi). assert (Hv : valid sh (corner arg_hi)) by (apply 
   - intros d Hd. apply in_seq in Hd. rewrite corner_nth by lia. unfold lprof. rewrite prof_arg_hi by (apply size_ge2; lia).
     unfold cind. destruct (nz (nth d em 0%Z) || nz (nth d unis 0%Z)); lra. Qed.
 End Linear.
+
+(* ------------------------------------------------------------------ *)
+(* linear_init (memoised, Qred, None handling): user-level statements   *)
+(* ------------------------------------------------------------------ *)
+Lemma linear_init_val sizes omin omax monos unis units i : valid (sizes ++ [units]) i ->
+  linear_init sizes omin omax monos unis units i ==
+  linear_init_fn sizes omin omax (zeros_if_none (length sizes) monos) (zeros_if_none (length sizes) unis) i.
+Proof. intros Hv. unfold linear_init. rewrite memo_ok by exact Hv. apply Qred_correct. Qed.
+
+Lemma eff_monos_same sizes monos unis : (count_nz monos + count_nz unis <> 0)%nat -> lin_eff_monos sizes monos unis = monos.
+Proof. intros H. unfold lin_eff_monos. destruct (Nat.eqb_spec (count_nz monos + count_nz unis) 0); [lia|reflexivity]. Qed.
+Lemma count_nz_pos l d : nz (nth d l 0%Z) = true -> (count_nz l <> 0)%nat.
+Proof. intros H E. rewrite (count_nz_zero_nth l d E) in H. discriminate. Qed.
+Lemma eff_monos_all sizes monos unis d : (count_nz monos + count_nz unis = 0)%nat -> (d < length sizes)%nat ->
+  nth d (lin_eff_monos sizes monos unis) 0%Z = 1%Z.
+Proof. intros H Hd. unfold lin_eff_monos. rewrite H. cbn [Nat.eqb].
+  rewrite nth_indep with (d' := 1%Z) by (rewrite repeat_length; exact Hd). apply nth_repeat. Qed.
+
+Section LinearTop.
+Variables (sizes : list nat) (omin omax : Q) (monos unis : option (list Z)) (units : nat).
+Let rank := length sizes.
+Let sh := sizes ++ [units].
+Let zm := zeros_if_none rank monos.
+Let zu := zeros_if_none rank unis.
+Let W := linear_init sizes omin omax monos unis units.
+Let r := lin_dim_range sizes omin omax zm zu.
+
+Lemma W_val i : valid sh i -> W i == linear_init_fn sizes omin omax zm zu i.
+Proof. apply linear_init_val. Qed.
+Lemma sh_nth d : (d < rank)%nat -> nth d sh 0%nat = nth d sizes 0%nat.
+Proof. intros Hd. unfold sh. apply app_nth1. exact Hd. Qed.
+
+(* dimension d is treated as monotone by the initialiser *)
+Definition lin_mono_dim (d : nat) : Prop := nz (nth d (lin_eff_monos sizes zm zu) 0%Z) = true.
+
+Lemma linear_mono_dim_step d i : (d < rank)%nat -> lin_mono_dim d -> valid sh i ->
+  (S (nth d i 0) < nth d sizes 0)%nat ->
+  W (upd i d (S (nth d i 0%nat))) == W i + lin_step 0 r (nth d sizes 0%nat).
+Proof. intros Hd Hm Hv Hs.
+  assert (Hv' : valid sh (upd i d (S (nth d i 0%nat)))) by (apply upd_valid; [exact Hv|rewrite sh_nth by exact Hd; exact Hs]).
+  rewrite (W_val _ Hv'), (W_val _ Hv). apply (lin_fn_mono_step sizes omin omax zm zu units); assumption. Qed.
+
+Lemma linear_mono_dim d : omin <= omax -> (d < rank)%nat -> lin_mono_dim d -> mono_along sh d W.
+Proof. intros Hb Hd Hm i Hv Hs. rewrite sh_nth in Hs by exact Hd.
+  rewrite (linear_mono_dim_step d i Hd Hm Hv Hs).
+  pose proof (lin_step_nonneg 0 r (nth d sizes 0%nat) ltac:(lia) (lin_dim_range_nonneg sizes omin omax zm zu Hb)). lra. Qed.
+
+(* a configured monotone dimension is a monotone dimension of the initialiser;
+   with nothing configured every dimension is *)
+Lemma configured_mono_dim d : nz (nth d zm 0%Z) = true -> lin_mono_dim d.
+Proof. intros H. unfold lin_mono_dim. rewrite eff_monos_same. exact H.
+  pose proof (count_nz_pos zm d H). lia. Qed.
+Lemma unconstrained_all_mono d : (count_nz zm + count_nz zu = 0)%nat -> (d < rank)%nat -> lin_mono_dim d.
+Proof. intros H Hd. unfold lin_mono_dim. rewrite eff_monos_all by assumption. reflexivity. Qed.
+
+Lemma linear_unimodal_dim d i : omin <= omax -> (d < rank)%nat -> nz (nth d zm 0%Z) = false ->
+  nz (nth d zu 0%Z) = true -> valid sh i -> (S (nth d i 0) < nth d sizes 0)%nat ->
+  let nxt := upd i d (S (nth d i 0%nat)) in
+  let first_part := (nth d i 0 <? nth d sizes 0 / 2)%nat in
+  if (nth d zu 0 =? 1)%Z
+  then (if first_part then W nxt <= W i else W i <= W nxt)        (* valley *)
+  else (if first_part then W i <= W nxt else W nxt <= W i).       (* peak *)
+Proof. intros Hb Hd Hm Hu Hv Hs nxt fp.
+  assert (Hv' : valid sh nxt) by (apply upd_valid; [exact Hv|rewrite sh_nth by exact Hd; exact Hs]).
+  assert (Hem : nz (nth d (lin_eff_monos sizes zm zu) 0%Z) = false).
+  { rewrite eff_monos_same. exact Hm. pose proof (count_nz_pos zu d Hu). lia. }
+  pose proof (W_val _ Hv') as E1. pose proof (W_val _ Hv) as E2.
+  destruct (Z.eqb_spec (nth d zu 0%Z) 1) as [E|E].
+  - pose proof (lin_fn_valley sizes omin omax zm zu units i d Hb Hv Hd Hem E Hs) as H.
+    unfold fp, nxt in *. destruct (nth d i 0 <? nth d sizes 0 / 2)%nat; lra.
+  - pose proof (lin_fn_peak sizes omin omax zm zu units i d Hb Hv Hd Hem Hu E Hs) as H.
+    unfold fp, nxt in *. destruct (nth d i 0 <? nth d sizes 0 / 2)%nat; lra. Qed.
+
+Lemma linear_constant_dim d i k : (d < rank)%nat -> nz (nth d zm 0%Z) = false -> nz (nth d zu 0%Z) = false ->
+  (count_nz zm + count_nz zu <> 0)%nat -> valid sh i -> (k < nth d sizes 0)%nat -> W (upd i d k) == W i.
+Proof. intros Hd Hm Hu Hc Hv Hk.
+  assert (Hv' : valid sh (upd i d k)) by (apply upd_valid; [exact Hv|rewrite sh_nth by exact Hd; exact Hk]).
+  rewrite (W_val _ Hv'), (W_val _ Hv). apply (lin_fn_const sizes omin omax zm zu units); try assumption.
+  rewrite eff_monos_same by exact Hc. exact Hm. Qed.
+
+(* tf.tile over units *)
+Lemma linear_units_tiled i u : valid sh i -> (u < units)%nat -> W (upd i rank u) == W i.
+Proof. intros Hv Hu.
+  assert (Hv' : valid sh (upd i rank u)).
+  { apply upd_valid. exact Hv. unfold sh, rank. rewrite unit_axis_nth. exact Hu. }
+  rewrite (W_val _ Hv'), (W_val _ Hv). unfold linear_init_fn.
+  rewrite (qsum_map_ext _ (fun d => nth (nth d i 0%nat) (lin_profile sizes omin omax zm zu d) 0)). reflexivity.
+  intros d Hd. apply in_seq in Hd. rewrite nth_upd_other by (unfold rank; lia). reflexivity. Qed.
+
+Lemma linear_range :
+  (forall s, In s sizes -> (2 <= s)%nat) -> (1 <= units)%nat -> (1 <= rank)%nat ->
+  length zm = rank -> length zu = rank ->
+  (forall d, nz (nth d zm 0%Z) && nz (nth d zu 0%Z) = false) -> omin <= omax ->
+  (forall i, valid sh i -> omin <= W i /\ W i <= omax) /\
+  (exists i, valid sh i /\ W i == omin) /\ (exists i, valid sh i /\ W i == omax).
+Proof. intros H1 H2 H3 H4 H5 H6 H7. split; [|split].
+  - intros i Hv. rewrite (W_val _ Hv). apply (lin_fn_in_range sizes omin omax zm zu units H2 H3 H4 H5 H6 H7). exact Hv.
+  - destruct (lin_fn_min_attained sizes omin omax zm zu units H1 H2 H3 H4 H5) as [i [Hv E]].
+    exists i. split. exact Hv. rewrite (W_val _ Hv). exact E.
+  - destruct (lin_fn_max_attained sizes omin omax zm zu units H1 H2 H3 H4 H5 H6) as [i [Hv E]].
+    exists i. split. exact Hv. rewrite (W_val _ Hv). exact E. Qed.
+End LinearTop.
+
+(* ------------------------------------------------------------------ *)
+(* random_monotonic_initializer                                         *)
+(* ------------------------------------------------------------------ *)
+Lemma idx_eqb_true a b : idx_eqb a b = true <-> a = b.
+Proof. unfold idx_eqb. destruct (list_eq_dec Nat.eq_dec a b); split; congruence. Qed.
+Lemma idx_eqb_refl a : idx_eqb a a = true. Proof. apply idx_eqb_true. reflexivity. Qed.
+
+Lemma index_of_lt v l : In v l -> (index_of v l < length l)%nat.
+Proof. induction l as [|x l IH]; intros H. destruct H. cbn [index_of length].
+  destruct (idx_eqb v x) eqn:E. lia. destruct H as [->|H]. rewrite idx_eqb_refl in E. discriminate.
+  specialize (IH H). lia. Qed.
+Lemma index_of_nth v l : In v l -> nth (index_of v l) l [] = v.
+Proof. induction l as [|x l IH]; intros H. destruct H. cbn [index_of].
+  destruct (idx_eqb v x) eqn:E. apply idx_eqb_true in E. subst. reflexivity.
+  destruct H as [->|H]. rewrite idx_eqb_refl in E. discriminate. cbn [nth]. apply IH. exact H. Qed.
+Lemma index_of_app_in v a b : In v a -> index_of v (a ++ b) = index_of v a.
+Proof. induction a as [|x a IH]; intros H. destruct H. cbn [app index_of].
+  destruct (idx_eqb v x) eqn:E. reflexivity. f_equal. apply IH.
+  destruct H as [->|H]. rewrite idx_eqb_refl in E. discriminate. exact H. Qed.
+Lemma index_of_app_notin v a b : ~ In v a -> index_of v (a ++ b) = (length a + index_of v b)%nat.
+Proof. induction a as [|x a IH]; intros H. reflexivity. cbn [app index_of length].
+  destruct (idx_eqb v x) eqn:E. apply idx_eqb_true in E. subst. exfalso. apply H. left. reflexivity.
+  rewrite IH. lia. intros H'. apply H. right. exact H'. Qed.
+
+Lemma valid_app_firstn a b i : valid (a ++ b) i -> valid a (firstn (length a) i).
+Proof. revert i. induction a as [|s a IH]; intros i Hv. constructor.
+  cbn [app] in Hv. inversion Hv; subst. cbn [length firstn]. constructor. assumption. apply IH. assumption. Qed.
+Lemma firstn_upd n : forall i d k, (d < n)%nat -> firstn n (upd i d k) = upd (firstn n i) d k.
+Proof. induction n as [|n IH]; intros i d k Hd. lia.
+  destruct i as [|x i]. reflexivity. destruct d; cbn. reflexivity. f_equal. apply IH. lia. Qed.
+Lemma nth_firstn_lt {A} n : forall (l : list A) d (x : A), (d < n)%nat -> nth d (firstn n l) x = nth d l x.
+Proof. induction n as [|n IH]; intros l d x Hd. lia. destruct l as [|y l]. reflexivity.
+  destruct d; cbn. reflexivity. apply IH. lia. Qed.
+
+Lemma vsum_upd_succ v d : (d < length v)%nat -> vsum (upd v d (S (nth d v 0%nat))) = S (vsum v).
+Proof. unfold vsum. revert d. induction v as [|x v IH]; intros d Hd; cbn [length] in Hd. lia.
+  destruct d; cbn [upd nth fold_right]. lia. rewrite IH by lia. lia. Qed.
+Lemma vsum_valid_le sizes v : valid sizes v -> (vsum v <= vsum (map pred sizes))%nat.
+Proof. unfold vsum. induction 1; cbn [map fold_right]. lia. lia. Qed.
+Lemma level_set_in sizes v : valid sizes v -> In v (level_set sizes (vsum v)).
+Proof. intros Hv. unfold level_set. apply filter_In. split. apply all_idx_valid. exact Hv. apply Nat.eqb_refl. Qed.
+Lemma level_set_inv sizes L v : In v (level_set sizes L) -> valid sizes v /\ vsum v = L.
+Proof. unfold level_set. intros H. apply filter_In in H. destruct H as [H1 H2]. split.
+  apply all_idx_valid. exact H1. apply Nat.eqb_eq. exact H2. Qed.
+
+Lemma concat_perm {A} (order blocks : list (list A)) :
+  Forall2 (@Permutation A) order blocks -> Permutation (concat order) (concat blocks).
+Proof. induction 1; cbn. constructor. apply Permutation_app; assumption. Qed.
+
+(* vertices of later levels receive larger parameter indices *)
+Lemma blocks_index_order sizes : forall order n0 n,
+  Forall2 (@Permutation idx) order (map (level_set sizes) (seq n0 n)) ->
+  (forall v, In v (concat order) -> (n0 <= vsum v)%nat) /\
+  (forall x y, In x (concat order) -> In y (concat order) -> (vsum x < vsum y)%nat ->
+     (index_of x (concat order) < index_of y (concat order))%nat).
+Proof. induction order as [|blk order IH]; intros n0 n H.
+  - split. intros v []. intros x y [].
+  - destruct n as [|n]; cbn [seq map] in H; inversion H; subst.
+    match goal with Hp : Permutation blk _ |- _ => rename Hp into Hblk end.
+    match goal with Hf : Forall2 _ order _ |- _ => destruct (IH (S n0) n Hf) as [IH1 IH2] end.
+    assert (Hlv : forall v, In v blk -> vsum v = n0).
+    { intros v Hv. apply (Permutation_in _ Hblk) in Hv. apply level_set_inv in Hv. tauto. }
+    cbn [concat]. split.
+    + intros v Hv. apply in_app_iff in Hv. destruct Hv as [Hv|Hv]. rewrite (Hlv v Hv). lia.
+      specialize (IH1 v Hv). lia.
+    + intros x y Hx Hy Hlt. apply in_app_iff in Hx. apply in_app_iff in Hy.
+      assert (Hy' : ~ In y blk).
+      { intros Hy'. rewrite (Hlv y Hy') in Hlt. destruct Hx as [Hx|Hx]. rewrite (Hlv x Hx) in Hlt. lia.
+        specialize (IH1 x Hx). lia. }
+      destruct Hy as [Hy|Hy]; [contradiction|].
+      rewrite (index_of_app_notin y blk _ Hy').
+      destruct (in_dec (list_eq_dec Nat.eq_dec) x blk) as [Hxb|Hxb].
+      * rewrite (index_of_app_in x blk _ Hxb). pose proof (index_of_lt x blk Hxb). lia.
+      * destruct Hx as [Hx|Hx]; [contradiction|]. rewrite (index_of_app_notin x blk _ Hxb).
+        specialize (IH2 x y Hx Hy Hlt). lia. Qed.
+
+Section RandomMono.
+Variables (sizes : list nat) (units : nat) (order : list (list idx)) (samples : list Q) (lo hi : Q).
+Let rank := length sizes.
+Let sh := sizes ++ [units].
+Let F := concat order.
+Let W := random_mono_init sizes units order samples.
+(* np.random.shuffle: every level is numbered in SOME order *)
+Hypothesis Horder : Forall2 (@Permutation idx) order (levels sizes).
+(* tf.sort(tf.random.uniform([n], lo, hi)): a sorted vector with one entry per numbered vertex, inside [lo, hi] *)
+Hypothesis Hsorted : forall a b, (a <= b)%nat -> (b < length samples)%nat -> nth a samples 0 <= nth b samples 0.
+Hypothesis Hlen : length samples = length F.
+Hypothesis Hrange : forall x, In x samples -> lo <= x /\ x <= hi.
+
+Lemma vertex_numbered v : valid sizes v -> In v F.
+Proof. intros Hv. unfold F. apply (Permutation_in _ (Permutation_sym (concat_perm _ _ Horder))).
+  apply in_concat. exists (level_set sizes (vsum v)). split.
+  - unfold levels. apply in_map. apply in_seq. pose proof (vsum_valid_le sizes v Hv). unfold num_levels. lia.
+  - apply level_set_in. exact Hv. Qed.
+
+Lemma rm_val i : valid sh i -> W i = nth (index_of (firstn rank i) F) samples 0.
+Proof. intros Hv. unfold W, random_mono_init. rewrite memo_ok by exact Hv. reflexivity. Qed.
+
+Lemma random_mono_all_dims d : (d < rank)%nat -> mono_along sh d W.
+Proof. intros Hd i Hv Hs.
+  assert (Hsd : nth d sh 0%nat = nth d sizes 0%nat) by (apply app_nth1; exact Hd). rewrite Hsd in Hs.
+  assert (Hv' : valid sh (upd i d (S (nth d i 0%nat)))) by (apply upd_valid; [exact Hv|rewrite Hsd; exact Hs]).
+  rewrite (rm_val _ Hv), (rm_val _ Hv'). rewrite firstn_upd by exact Hd.
+  set (v := firstn rank i).
+  assert (Hvv : valid sizes v) by (apply (valid_app_firstn sizes [units]); exact Hv).
+  assert (Hnd : nth d i 0%nat = nth d v 0%nat) by (unfold v; rewrite nth_firstn_lt by exact Hd; reflexivity).
+  rewrite Hnd in *.
+  assert (Hvv' : valid sizes (upd v d (S (nth d v 0%nat)))) by (apply upd_valid; assumption).
+  pose proof (vertex_numbered _ Hvv) as Hin. pose proof (vertex_numbered _ Hvv') as Hin'.
+  destruct (blocks_index_order sizes order 0 (num_levels sizes) Horder) as [_ Hord].
+  assert (Hlt : (vsum v < vsum (upd v d (S (nth d v 0%nat))))%nat).
+  { rewrite vsum_upd_succ. lia. rewrite (valid_length _ _ Hvv). exact Hd. }
+  specialize (Hord _ _ Hin Hin' Hlt). fold F in Hord.
+  apply Hsorted. lia. rewrite Hlen. apply index_of_lt. exact Hin'. Qed.
+
+Lemma random_mono_in_range i : valid sh i -> lo <= W i /\ W i <= hi.
+Proof. intros Hv. rewrite (rm_val _ Hv). apply Hrange. apply nth_In. rewrite Hlen. apply index_of_lt.
+  apply vertex_numbered. apply (valid_app_firstn sizes [units]). exact Hv. Qed.
+
+Lemma random_mono_units_tiled i u : valid sh i -> (u < units)%nat -> W (upd i rank u) = W i.
+Proof. intros Hv Hu.
+  assert (Hv' : valid sh (upd i rank u)).
+  { apply upd_valid. exact Hv. unfold sh, rank. rewrite unit_axis_nth. exact Hu. }
+  rewrite (rm_val _ Hv), (rm_val _ Hv'). f_equal. f_equal.
+  clear. unfold rank. revert i. induction sizes as [|s sz IH]; intros i; cbn. reflexivity.
+  destruct i as [|x i]; cbn. reflexivity. f_equal. apply IH. Qed.
+End RandomMono.
+
+(* ------------------------------------------------------------------ *)
+(* trust / dominance / joint constraints on the linear initialiser      *)
+(* ------------------------------------------------------------------ *)
+(* the inequalities of lattice_lib.assert_constraints for the families that
+   Proofs/LatticeSpec.v does not define *)
+Definition mono_dominance_holds (sh : list nat) (p : nat * nat) (f : tens) : Prop :=
+  let '(dm, wk) := p in
+  forall b i j, valid sh b -> (S i < nth dm sh 0)%nat -> (S j < nth wk sh 0)%nat ->
+    let mid := (f (at2 b dm wk (S i) (S j)) + f (at2 b dm wk i j)) * (1#2) in
+    mid <= f (at2 b dm wk (S i) j) /\ f (at2 b dm wk i (S j)) <= mid.
+Definition range_dominance_holds (sh : list nat) (p : nat * nat) (f : tens) : Prop :=
+  let '(dm, wk) := p in
+  forall b i j, valid sh b -> (i < nth dm sh 0)%nat -> (j < nth wk sh 0)%nat ->
+    f (at2 b dm wk i (nth wk sh 0 - 1)%nat) - f (at2 b dm wk i 0%nat) <=
+    f (at2 b dm wk (nth dm sh 0 - 1)%nat j) - f (at2 b dm wk 0%nat j).
+Definition joint_mono_holds (sh : list nat) (p : nat * nat) (f : tens) : Prop :=
+  let '(d1, d2) := p in
+  forall b i j, valid sh b -> (S i < nth d1 sh 0)%nat -> (S j < nth d2 sh 0)%nat ->
+    let mid := (f (at2 b d1 d2 (S i) j) + f (at2 b d1 d2 i (S j))) * (1#2) in
+    mid <= f (at2 b d1 d2 (S i) (S j)) /\ f (at2 b d1 d2 i j) <= mid.
+
+Lemma lin_step_antitone r n n' : 0 <= r -> (2 <= n)%nat -> (n <= n')%nat -> lin_step 0 r n' <= lin_step 0 r n.
+Proof. intros Hr Hn Hnn. unfold lin_step.
+  destruct (Nat.eqb_spec n' 1); [lia|]. destruct (Nat.eqb_spec n 1); [lia|].
+  assert (H1 : 0 < qnat n - 1) by (pose proof (qnat_pos (n - 1) ltac:(lia)); rewrite qnat_pred in * by lia; lra).
+  assert (H2 : qnat n - 1 <= qnat n' - 1).
+  { replace n' with (n + (n' - n))%nat by lia. rewrite qnat_plus. pose proof (qnat_nonneg (n' - n)). lra. }
+  set (x := (r - 0) / (qnat n - 1)).
+  assert (Hx : 0 <= x) by (unfold x; apply Qle_shift_div_l; lra).
+  assert (Ex : x * (qnat n - 1) == r - 0) by (unfold x; field; lra).
+  apply Qle_shift_div_r. lra. pose proof (qmul_le_l x _ _ Hx H2). lra. Qed.
+
+Section LinearTrust.
+Variables (sizes : list nat) (omin omax : Q) (monos unis : option (list Z)) (units : nat).
+Let rank := length sizes.
+Let sh := sizes ++ [units].
+Let zm := zeros_if_none rank monos.
+Let zu := zeros_if_none rank unis.
+Let em := lin_eff_monos sizes zm zu.
+Let r := lin_dim_range sizes omin omax zm zu.
+Let W := linear_init sizes omin omax monos unis units.
+Let P := lprof sizes omin omax zm zu.
+
+(* the kernel is additive: moving two coordinates adds two independent increments *)
+Lemma linear_at2 b m c i j : valid sh b -> (m < rank)%nat -> (c < rank)%nat -> m <> c ->
+  (i < nth m sizes 0)%nat -> (j < nth c sizes 0)%nat ->
+  W (at2 b m c i j) == W b + (P m i - P m (nth m b 0%nat)) + (P c j - P c (nth c b 0%nat)).
+Proof. intros Hv Hm Hc Hne Hi Hj. unfold at2.
+  assert (Hv1 : valid sh (upd b m i)) by (apply upd_valid; [exact Hv|unfold sh; rewrite app_nth1 by exact Hm; exact Hi]).
+  assert (Hv2 : valid sh (upd (upd b m i) c j)) by (apply upd_valid; [exact Hv1|unfold sh; rewrite app_nth1 by exact Hc; exact Hj]).
+  unfold W. rewrite (linear_init_val _ _ _ _ _ _ _ Hv2), (linear_init_val _ _ _ _ _ _ _ Hv).
+  pose proof (lin_fn_upd sizes omin omax zm zu units (upd b m i) c j Hv1 Hc Hj) as E2.
+  pose proof (lin_fn_upd sizes omin omax zm zu units b m i Hv Hm Hi) as E1.
+  rewrite nth_upd_other in E2 by exact Hne. unfold P. fold rank zm zu in E1, E2 |- *. lra. Qed.
+
+Hypothesis Hb : omin <= omax.
+Hypothesis Hsizes : forall s, In s sizes -> (2 <= s)%nat.
+
+Lemma sh_size d : (d < rank)%nat -> nth d sh 0%nat = nth d sizes 0%nat.
+Proof. intros Hd. unfold sh. apply app_nth1. exact Hd. Qed.
+Lemma sz2 d : (d < rank)%nat -> (2 <= nth d sizes 0)%nat.
+Proof. intros Hd. apply Hsizes. apply nth_In. exact Hd. Qed.
+
+(* Edgeworth trusts of both directions always hold: every 2x2 square is flat *)
+Lemma linear_edgeworth m c dir : (m < rank)%nat -> (c < rank)%nat -> m <> c -> edgeworth_holds sh (m, c, dir) W.
+Proof. intros Hm Hc Hne b i j Hv Hi Hj. rewrite sh_size in Hi, Hj by assumption.
+  assert (E : esq W m c i j b == 0).
+  { unfold esq. rewrite !linear_at2 by (auto; lia). lra. }
+  destruct (0 <? dir)%Z; lra. Qed.
+
+(* a trapezoid trust holds when the initialiser leaves the conditional dimension unconstrained *)
+Lemma linear_trapezoid_free_cond m c dir : (m < rank)%nat -> (c < rank)%nat -> m <> c ->
+  nz (nth c em 0%Z) = false -> nz (nth c zu 0%Z) = false -> trapezoid_holds sh (m, c, dir) W.
+Proof. intros Hm Hc Hne Hcm Hcu b j Hv Hj. cbv zeta. rewrite sh_size in Hj by assumption. rewrite sh_size by assumption.
+  pose proof (sz2 m Hm).
+  assert (E : forall i k, (i < nth m sizes 0)%nat -> (k < nth c sizes 0)%nat ->
+              W (at2 b m c i k) == W b + (P m i - P m (nth m b 0%nat))).
+  { intros i k Hi Hk. rewrite linear_at2 by auto. unfold P, lprof. fold rank zm zu em.
+    rewrite !(prof_unconstrained (nth c em 0%Z)) by assumption. lra. }
+  pose proof (E 0%nat j ltac:(lia) ltac:(lia)). pose proof (E 0%nat (S j) ltac:(lia) ltac:(lia)).
+  pose proof (E (nth m sizes 0 - 1)%nat j ltac:(lia) ltac:(lia)).
+  pose proof (E (nth m sizes 0 - 1)%nat (S j) ltac:(lia) ltac:(lia)).
+  destruct (0 <? dir)%Z; lra. Qed.
+
+(* monotonic dominance holds when the dominant dimension has no more vertices than the weak one *)
+Lemma linear_mono_dominance dm wk : (dm < rank)%nat -> (wk < rank)%nat -> dm <> wk ->
+  nz (nth dm em 0%Z) = true -> nz (nth wk em 0%Z) = true -> (nth dm sizes 0 <= nth wk sizes 0)%nat ->
+  mono_dominance_holds sh (dm, wk) W.
+Proof. intros Hd Hw Hne Hdm Hwm Hs b i j Hv Hi Hj. cbv zeta. rewrite sh_size in Hi, Hj by assumption.
+  rewrite !linear_at2 by (auto; lia). unfold P, lprof. fold rank zm zu em r.
+  rewrite !(prof_mono_step (nth dm em 0%Z)) by (auto; lia). rewrite !(prof_mono_step (nth wk em 0%Z)) by (auto; lia).
+  pose proof (lin_step_antitone r _ _ (lin_dim_range_nonneg sizes omin omax zm zu Hb) (sz2 dm Hd) Hs). fold r. lra. Qed.
+
+(* range dominance between two monotone dimensions always holds: both ranges are r *)
+Lemma linear_range_dominance dm wk : (dm < rank)%nat -> (wk < rank)%nat -> dm <> wk ->
+  nz (nth dm em 0%Z) = true -> nz (nth wk em 0%Z) = true -> range_dominance_holds sh (dm, wk) W.
+Proof. intros Hd Hw Hne Hdm Hwm b i j Hv Hi Hj. rewrite !sh_size in * by assumption.
+  pose proof (sz2 dm Hd). pose proof (sz2 wk Hw).
+  rewrite !linear_at2 by (auto; lia). unfold P, lprof, prof_at. fold rank zm zu em r. rewrite Hdm, Hwm.
+  rewrite !linspace_at_last by lia. rewrite !linspace_at_first by lia. lra. Qed.
+
+(* joint monotonicity holds when neither dimension is unimodal *)
+Lemma linear_joint_mono d1 d2 : (d1 < rank)%nat -> (d2 < rank)%nat -> d1 <> d2 ->
+  (nz (nth d1 em 0%Z) = true \/ nz (nth d1 zu 0%Z) = false) ->
+  (nz (nth d2 em 0%Z) = true \/ nz (nth d2 zu 0%Z) = false) -> joint_mono_holds sh (d1, d2) W.
+Proof. intros H1 H2 Hne Hd1 Hd2 b i j Hv Hi Hj. cbv zeta. rewrite sh_size in Hi, Hj by assumption.
+  rewrite !linear_at2 by (auto; lia).
+  assert (Hstep : forall d k, (d < rank)%nat -> (nz (nth d em 0%Z) = true \/ nz (nth d zu 0%Z) = false) ->
+                   P d k <= P d (S k)).
+  { intros d k Hd [Hm|Hu]; unfold P, lprof; fold rank zm zu em r.
+    - rewrite (prof_mono_step (nth d em 0%Z)) by (auto; pose proof (sz2 d Hd); lia).
+      pose proof (lin_step_nonneg 0 r (nth d sizes 0%nat) ltac:(pose proof (sz2 d Hd); lia) (lin_dim_range_nonneg sizes omin omax zm zu Hb)).
+      fold r in H. lra.
+    - destruct (nz (nth d em 0%Z)) eqn:Em.
+      + rewrite (prof_mono_step (nth d em 0%Z)) by (auto; pose proof (sz2 d Hd); lia).
+        pose proof (lin_step_nonneg 0 r (nth d sizes 0%nat) ltac:(pose proof (sz2 d Hd); lia) (lin_dim_range_nonneg sizes omin omax zm zu Hb)).
+        fold r in H. lra.
+      + rewrite !prof_unconstrained by assumption. lra. }
+  pose proof (Hstep d1 i H1 Hd1). pose proof (Hstep d2 j H2 Hd2). lra. Qed.
+End LinearTrust.
+
+(* ------------------------------------------------------------------ *)
+(* Props-level packaging                                                *)
+(* ------------------------------------------------------------------ *)
+Lemma linear_monotone_dims sizes omin omax monos unis units d :
+  let rank := length sizes in
+  let zm := zeros_if_none rank monos in let zu := zeros_if_none rank unis in
+  let W := linear_init sizes omin omax monos unis units in
+  omin <= omax -> (d < rank)%nat ->
+  (nz (nth d zm 0%Z) = true \/ (count_nz zm + count_nz zu = 0)%nat) ->
+  mono_along (sizes ++ [units]) d W /\
+  forall i, valid (sizes ++ [units]) i -> (S (nth d i 0) < nth d sizes 0)%nat ->
+    W (upd i d (S (nth d i 0%nat))) == W i + lin_step 0 (lin_dim_range sizes omin omax zm zu) (nth d sizes 0%nat).
+Proof. intros rank zm zu W Hb Hd Hm.
+  assert (Hmd : lin_mono_dim sizes monos unis d).
+  { destruct Hm as [Hm|Hm]. apply configured_mono_dim; exact Hm. apply unconstrained_all_mono; assumption. }
+  split. apply linear_mono_dim; assumption.
+  intros i Hv Hs. apply linear_mono_dim_step; assumption. Qed.
+
+Lemma default_init_params_spec omin omax :
+  (forall x, omin = Some x -> fst (default_init_params omin omax) = x) /\
+  (forall y, omax = Some y -> snd (default_init_params omin omax) = y).
+Proof. unfold default_init_params. destruct omin, omax; cbn; split; intros ? E; inversion E; reflexivity. Qed.
+Lemma default_init_params_unbounded : default_init_params None None = (0, 1).
+Proof. reflexivity. Qed.
+Lemma default_init_params_one_sided a b :
+  default_init_params (Some a) None = (a, qmax 1 a) /\ default_init_params None (Some b) = (qmin 0 b, b).
+Proof. split; reflexivity. Qed.
